@@ -660,4 +660,66 @@ theorem classifyLike_eval (p s : List Char) :
     exact regexLike_isMatch _ p s
 
 
+
+/-! ## substring: char-boundary check ⇒ valid UTF-8 -/
+
+theorem boundary_split (s : List Char) (i : Nat) (hi : i ≤ (encode s).length)
+    (h : isCharBoundary (encode s) i = true) :
+    ∃ s1 s2, s = s1 ++ s2 ∧ (encode s).take i = encode s1 ∧ (encode s).drop i = encode s2 := by
+  apply encode_sync s _ _ (List.take_append_drop i (encode s))
+  unfold isCharBoundary at h
+  split at h
+  · rename_i h0; subst h0
+    simpa using encode_lead_or_nil s
+  split at h
+  · left
+    apply List.drop_eq_nil_of_le
+    omega
+  · rename_i _ hlt
+    right
+    have hlt' : i < (encode s).length := by omega
+    refine ⟨(encode s)[i], (encode s).drop (i + 1), (List.drop_eq_getElem_cons hlt'), ?_⟩
+    simp only [List.getD_eq_getElem?_getD, List.getElem?_eq_getElem hlt', Option.getD_some,
+      Bool.or_eq_true, decide_eq_true_eq] at h
+    unfold isContB
+    omega
+
+theorem boundary_take (v : List Nat) (st e : Nat) (he : e ≤ v.length) (hse : st ≤ e)
+    (h : isCharBoundary v st = true) : isCharBoundary (v.take e) st = true := by
+  unfold isCharBoundary at h ⊢
+  by_cases h0 : st = 0
+  · simp [h0]
+  · simp only [h0, if_false] at h ⊢
+    have hl : (v.take e).length = e := by simp; omega
+    by_cases h1 : st = e
+    · simp [hl, h1]
+    · have : st < e := by omega
+      have h2 : ¬ st ≥ v.length := by omega
+      have h3 : ¬ st ≥ (v.take e).length := by omega
+      simp only [h2, h3, if_false] at h ⊢
+      simpa [List.getD_eq_getElem?_getD, List.getElem?_take, this] using h
+
+/-- a slice between two character boundaries is the encoding of a run of characters -/
+theorem slice_valid (s : List Char) (st e : Nat) (he : e ≤ (encode s).length)
+    (hst : isCharBoundary (encode s) st = true) (hen : isCharBoundary (encode s) e = true) :
+    ∃ m, ((encode s).take e).drop st = encode m ∧ m <:+: s := by
+  by_cases hse : st ≤ e
+  · obtain ⟨s1, s2, e1, e2, _⟩ := boundary_split s e he hen
+    have hb := boundary_take (encode s) st e he hse hst
+    rw [e2] at hb
+    have hl : (encode s1).length = e := by rw [← e2]; simp; omega
+    obtain ⟨a, m, f1, _, f3⟩ := boundary_split s1 st (by omega) hb
+    refine ⟨m, by rw [e2, f3], ?_⟩
+    rw [e1, f1]
+    exact ⟨a, s2, rfl⟩
+  · refine ⟨[], ?_, List.nil_infix⟩
+    simp only [encode]
+    apply List.drop_eq_nil_of_le
+    simp; omega
+
+theorem isCharBoundary_zero (v : List Nat) : isCharBoundary v 0 = true := by simp [isCharBoundary]
+theorem isCharBoundary_length (v : List Nat) : isCharBoundary v v.length = true := by
+  unfold isCharBoundary; split <;> simp
+
+
 end ArrowModel.C20
